@@ -100,7 +100,7 @@ func (t *fnTrans) instr(in ssa.Instruction) {
 		et := in.Type().Underlying().(*types.Slice).Elem()
 		ev := t.elemsVar(et)
 		r := t.newRef()
-		t.set(ev.Name, fmt.Sprintf("(store %s %s ((as const (Array Int %s)) %s))", t.get(t.cur, ev.Name), r, t.S.sortOf(et), t.S.zero(et)))
+		t.set(ev.Name, fmt.Sprintf("(store %s %s %s)", t.get(t.cur, ev.Name), r, t.S.constArray(t.S.sortOf(et), t.S.zero(et))))
 		t.defineReg(in, fmt.Sprintf("(mk_slice %s 0 %s %s)", r, ln, cp))
 	case *ssa.MakeMap:
 		mt := in.Type().Underlying().(*types.Map)
@@ -217,7 +217,7 @@ func (t *fnTrans) alloc(in *ssa.Alloc) {
 	r := t.newRef()
 	if at, ok := et.Underlying().(*types.Array); ok {
 		ev := t.elemsVar(at.Elem())
-		t.set(ev.Name, fmt.Sprintf("(store %s %s ((as const (Array Int %s)) %s))", t.get(t.cur, ev.Name), r, t.S.sortOf(at.Elem()), t.S.zero(at.Elem())))
+		t.set(ev.Name, fmt.Sprintf("(store %s %s %s)", t.get(t.cur, ev.Name), r, t.S.constArray(t.S.sortOf(at.Elem()), t.S.zero(at.Elem()))))
 		t.setVal(in, Val{T: r, P: &Path{ArrOf: ev.Name, Ref: r, Typ: et}})
 		return
 	}
@@ -233,7 +233,7 @@ func (t *fnTrans) zeroInit(p *Path, et types.Type) {
 			f := s.Field(i)
 			if at, isArr := f.Type().Underlying().(*types.Array); isArr {
 				ev := t.elemsVar(at.Elem())
-				t.set(ev.Name, fmt.Sprintf("(store %s %s ((as const (Array Int %s)) %s))", t.get(t.cur, ev.Name), t.fieldArrBase(et, i, p.Ref), t.S.sortOf(at.Elem()), t.S.zero(at.Elem())))
+				t.set(ev.Name, fmt.Sprintf("(store %s %s %s)", t.get(t.cur, ev.Name), t.fieldArrBase(et, i, p.Ref), t.S.constArray(t.S.sortOf(at.Elem()), t.S.zero(at.Elem()))))
 				continue
 			}
 			fv := t.fieldVar(et, i)
